@@ -105,6 +105,11 @@ def handle (kind : String) (args : List String) (impl : String) : String :=
       let implProcs := ((impl.splitOn " | procs ").getD 1 "")
       let want := specProcsStrict st
       if implProcs == want then "ok" else s!"SPEC processors-differ-from-configured expected={want} impl={impl}"
+  | "c08.hcoff", [] =>
+    -- the processor's configuration is the latest one (no health check), the process is alive, and with no health check every
+    -- endpoint is used: two of four round-robin connections reach each backend
+    if impl == "update=ok cfg=1 served=2+2/4" then "ok"
+    else s!"SPEC processor-does-not-follow-the-latest-configuration impl={impl}"
   | "c08.alias", [_, _] =>
     if impl == "missing=0 extra=0" then "ok" else s!"SPEC processor-hosts-differ-from-the-endpoint-set impl={impl}"
   | "c08.hist", toks =>
